@@ -57,7 +57,7 @@ CHECKS["C12"] = dict(
 
 CHECKS["C13"] = dict(
     technique="static analysis: symbolic (linear normal form) check of the scanner's cursor invariant on every block that writes the offset, keyword/field agreement of the token stamp, inclusive-end convention lint at every consumer",
-    text="The tokenizer keeps _char/_peek/_end/_col consistent with _current by hand in three places (_advance, its alnum batch, the str.find string fast path); each block that writes _current must re-establish the three equalities with symbolically equal expressions and move the column in lockstep, so an off-by-one in a fast path is caught without running it. The string fast path must count exactly the line breaks _advance counts (count-term vector incl. CR LF pairing) and restart the column after the last of them. Token stamps, every slice/adjacency/highlight consumer of the inclusive end, TokenError's own slice and same-token error reporting are shape-checked. Tiling of the input by tokens is not decided. The window slice feeding the lookahead clamps its lower bound; the i>1 branch of _advance counts the line breaks it skips; self._prev/_curr is never read as an argument after a sibling argument moved the cursor; a variable-length rewind restores _line/_col; after a nested _scan the enclosing method re-assigns _start before emitting its own token.",
+    text="The tokenizer keeps _char/_peek/_end/_col consistent with _current by hand in three places (_advance, its alnum batch, the str.find string fast path); each block that writes _current must re-establish the three equalities with symbolically equal expressions and move the column in lockstep, so an off-by-one in a fast path is caught without running it. The string fast path must count exactly the line breaks _advance counts (count-term vector incl. CR LF pairing) and restart the column after the last of them. Token stamps, every slice/adjacency/highlight consumer of the inclusive end, TokenError's own slice and same-token error reporting are shape-checked. Tiling of the input by tokens is not decided. The window slice feeding the lookahead clamps its lower bound; the i>1 branch of _advance counts the line breaks it skips; self._prev/_curr is never read as an argument after a sibling argument moved the cursor; a variable-length rewind restores _line/_col; after a nested _scan the enclosing method re-assigns _start before emitting its own token. On every path through the scanner's methods _start is re-assigned between two token emissions, so no two tokens are stamped with overlapping spans.",
     ref="DESIGN.md section 4 / C13",
 )
 
